@@ -156,7 +156,7 @@ func (p *Parser) parseNode(node, parent *yaml.Node, group *Group, offsetLine, of
 						node,
 						group,
 						offsetLine+node.Line,
-						offsetColumn+countLeadingSpace(contentLines[node.Line]),
+						offsetColumn+blockIndent(contentLines[node.Line:]),
 						strings.Split(node.Value, "\n"),
 					)...,
 				)
@@ -757,6 +757,16 @@ func tryDecodingYamlError(err error) ParseError {
 		}
 	}
 	return ParseError{Line: 1, Err: err}
+}
+
+// Indentation of a block scalar is the one of its first line that's not empty.
+func blockIndent(lines []string) int {
+	for _, line := range lines {
+		if strings.TrimSpace(line) != "" {
+			return countLeadingSpace(line)
+		}
+	}
+	return 0
 }
 
 func countLeadingSpace(line string) (i int) {
